@@ -106,9 +106,22 @@ def visible_vars(env):
   return vals
 
 
+def active_gen(env):
+  e = env
+  while e is not None:
+    if e.gen is not None:
+      return e.gen
+    e = e.parent
+  return None
+
+
 def inv_ns(ex, env, ghost):
   ctx = ex.ctx
   vals = visible_vars(env)
+  g = active_gen(env)
+  if g is not None and g.ys is not None:
+    ghost = dict(ghost)
+    ghost['yielded'] = VSet(g.ys, g.esort)
   return NS(ctx, vals, heap=None, old=ctx.entry_old_ns, extra=ghost)
 
 
@@ -132,6 +145,9 @@ def fresh_like(ctx, v, name):
 
 def havoc(ex, env, modified):
   ctx = ex.ctx
+  g = active_gen(env)
+  if g is not None and g.ys is not None:
+    g.ys = z3.Const(ctx.sym('yielded'), z3.SetSort(g.esort))
   for m in sorted(modified):
     if m == '@lheap':
       from mmverif.engine import libcontracts
